@@ -5,11 +5,8 @@ from contracts import urlutils_c as m
 
 
 def run(ded, repo, tier):
-    for v in ['any', 'dotfree']:
-        eng = Engine(repo, m.FILE, classes=m.CLASSES, contracts=m.CONTRACTS)
-        for c in m.ALL:
-            eng.register_class(c)
-        driver.discharge(ded, eng, 'resolve_path_parts', clause_of={'*': 'remove_dot_segments'}, tier=tier, variant=v,
-                         timeout=30 if tier == 'quick' else 120)
+    driver.run_parallel(ded, [dict(module='contracts.urlutils_c', repo=repo, q='resolve_path_parts', variant=v, tier=tier,
+                                   clause_of={'*': 'remove_dot_segments'}, timeout=30 if tier == 'quick' else 120)
+                              for v in ['any', 'dotfree']])
     ded.assume('path_parts is a finite sequence of str; idempotence follows from (output dot-free) + (identity on dot-free input) by composition')
     ded.trust('URL.navigate / parse / render are not under contract: the text-level RFC 3986 5.2 equality is decided by the bounded differential only')
